@@ -465,6 +465,11 @@ def write_evidence(mod, prop, tier, seed, results, reported, known_confirmed, ha
         "known_findings_confirmed": known_confirmed,
         "harness_errors": len(harness_errors),
         "engine": "litex.gen.sim.Simulator (real evaluator)",
+        "process_model": "every chunk of consecutive runs of a family executes in a process forked from one that has imported the code under test "
+                         "and never built or run anything; a violation that needs state left by earlier runs of its chunk is replayed with that "
+                         "history (stored in the replay file)",
+        "hermetic_chunks": len({(r.get("family"), r.get("chunk_start")) for r in results if "chunk_start" in r}),
+        "simulated_time_cycles": cycles,
     }
     if hasattr(mod, "extra_coverage"):
         cov.update(mod.extra_coverage(results))
